@@ -25,6 +25,10 @@ PY_TIES = [
     "py_find_position_in_leaf_tests py_sorted_fast_test py_sorted_fast_body py_setitem_shape py_api_pop py_api_popitem py_api_setdefault py_api_copy "
     "py_api_clear py_api_getitem py_api_contains py_api_delitem py_api_bool").split()]
 
+C_TIES = ["BPT.TieC." + n for n in (
+    "c_min_capacity c_default_capacity c_header_bits c_ctor_rejects_eq c_leaf_split_mid_eq c_branch_split_mid_eq c_leaf_is_full_eq c_branch_is_full_eq "
+    "c_leaf_split_counts_eq c_branch_split_counts_eq c_refcount_sites_eq c_stamp_increments_eq c_iter_fail_fast_eq c_routing_eq c_alloc_via_type_slots_eq").split()]
+
 # suites: name -> dict(kind, args per tier)
 #   kind "rust": bpt-harness gen <suite> ...
 PROPS = {
@@ -320,5 +324,46 @@ PROPS = {
         ],
         "nontrivial": "a case is non-trivial when the tree grew beyond a single leaf and at least one deletion succeeded; the independent structural walk (incl. chain = leaves in order) runs after every mutation and the full structural dump is compared with the model; py-exh enumerates every set/del history of the given depth over 3 keys in the middle of a multi-leaf tree at capacities 4, 5, 6; from_sorted_items cases compare contents and shape with an incremental build; distinct = distinct op-line sequences",
         "trusted_extra": ["from_sorted_items (the bulk-load fast path through the cached rightmost leaf) is decided by the oracle (contents and shape vs an incremental build, invariants) and by the model/implementation correspondence of `fromsorted`; its Lean theorem is not proved yet"],
+    },
+    "C12": {
+        "title": "C extension mapping behaves like dict; iterators fail fast on mutation",
+        "module": "BPT.Props.C12",
+        "tags": ["C12"],
+        "theorems": [
+            "BPT.Props.C12.step_refines", "BPT.Props.C12.run_refines", "BPT.Props.C12.refines_dict",
+            "BPT.Props.C12.iterator_fail_fast", "BPT.Props.C12.mutation_bumps_stamp",
+            "BPT.Props.C12.iterator_stale_after_set", "BPT.Props.C12.iterator_stale_after_del", "BPT.Props.C12.wupdate_spec",
+            "BPT.C.insertRec_spec", "BPT.C.deleteRec_spec", "BPT.C.findRec_spec", "BPT.C.setitem_spec", "BPT.C.delitem_spec",
+            "BPT.C.getitem_spec", "BPT.C.contains_spec", "BPT.C.len_spec", "BPT.C.cinv_new", "BPT.C.routePos_eq",
+        ],
+        "ties": C_TIES,
+        "suites": [
+            {"kind": "c", "suite": "c-ops", "quick": {"cases": 60, "len": 80}, "thorough": {"cases": 2500, "len": 150}},
+            {"kind": "c", "suite": "c-exh", "quick": {"cases": 240, "len": 3}, "thorough": {"cases": 2600, "len": 4}},
+        ],
+        "nontrivial": "a case is non-trivial when the tree grew beyond a single leaf and at least one deletion succeeded; every case picks one of three ways to drive the extension (the type, a trivial Python subclass, the package wrapper) and one of four key representations (exact int, exact str, user-defined class with rich comparison, ints beyond C long); iterators are created, advanced, interleaved with mutations and advanced again; c-exh enumerates every set/del history of the given depth over 3 keys in the middle of a multi-leaf tree; the full structural dump (incl. emptied leaves) is compared with the model; distinct = distinct op-line sequences",
+        "trusted_extra": ["that a drained iterator (list(t.items()), keys(), and the wrapper's values / popitem / copy / clear built on it) yields exactly the entries in key order, skipping emptied leaves, is decided by the dict oracle and the model/implementation correspondence, not yet by a Lean theorem",
+                          "the three comparison fast paths (exact int, exact str, rich compare) and PyArg parsing are glue covered by the correspondence run only"],
+    },
+    "C13": {
+        "title": "C extension is memory-safe and balances reference counts",
+        "module": "BPT.Props.C13",
+        "tags": ["C13"],
+        "theorems": [
+            "BPT.Props.C13.no_out_of_bounds", "BPT.Props.C13.no_out_of_bounds_along_histories",
+            "BPT.Props.C13.setitem_balanced", "BPT.Props.C13.delitem_balanced", "BPT.Props.C13.lookups_balanced",
+            "BPT.Props.C13.dealloc_balanced", "BPT.Props.C13.owned_eq_slots_step", "BPT.Props.C13.capacity_exact",
+            "BPT.Props.C13.Legacy.capacity_truncates", "BPT.Props.C13.Legacy.leaf_split_leaks",
+            "BPT.C.insertLeaf_refs", "BPT.C.insertBranch_refs", "BPT.C.insertRec_refs", "BPT.C.deleteRec_refs", "BPT.C.setitem_refs",
+            "BPT.C.new_spec",
+        ],
+        "ties": C_TIES,
+        "suites": [
+            {"kind": "c", "suite": "c-ops", "quick": {"cases": 60, "len": 80}, "thorough": {"cases": 2500, "len": 150}},
+            {"kind": "c", "suite": "c-caps", "quick": {"cases": 1, "len": 1}, "thorough": {"cases": 1, "len": 1}},
+        ],
+        "nontrivial": "as C12; in addition after every mutation sys.getrefcount of every tracked key and value object minus its baseline must equal the number of tree slots holding it (from _verif_dump), and zero after the tree is destroyed; the model's slot multiset is compared with the implementation's (`refs` lines); every generated history is replayed under AddressSanitizer; c-caps drives capacities 0, 3, 4, …, 65535, 65536, 65537, 65540, 131072, 2^31-1 through all three ways of constructing the object; a crash or sanitizer report of the driver process is an oracle failure with the operations executed so far as replay",
+        "trusted_extra": ["CPython's allocator protocol for instances of Python subclasses (D10), GC traversal / tp_clear and use-after-free of the C heap are not expressible in the model: tie lemma c_alloc_via_type_slots_eq + subclass and wrapper lifecycles under the harness + AddressSanitizer replay + refcount/weakref audit observe them",
+                          "iterator steps take one new reference per yielded key / value (tie lemma on the INCREF sites); their balance is observed by the refcount audit, not proved"],
     },
 }
